@@ -323,6 +323,35 @@ Section Generic.
       apply (Forall_nth_error _ _ _ _ (wf_busy _ W) Hn). congruence.
   Qed.
 
+  Lemma set_prog_spec : forall t p (s s' : sys), set_prog t p s = Some s' ->
+    exists th, nth_error (threads s) t = Some th /\ st th = Idle /\
+      s' = mkSys (shared s) (owner s) (holder s) (upd t (mkThread p Idle) (threads s)) (hist s).
+  Proof.
+    intros t p s s' H. unfold set_prog in H. destruct (nth_error (threads s) t) as [th|] eqn:Hn; [|discriminate].
+    destruct (st th) eqn:Hs; try discriminate. inversion H; subst. eauto.
+  Qed.
+
+  Lemma count_upd_idle : forall (f : thread op -> bool) t p th ths,
+    (forall a, st a = Idle -> f a = false) -> nth_error ths t = Some th -> st th = Idle ->
+    count f (upd t (mkThread p Idle) ths) = count f ths.
+  Proof.
+    intros f t p th ths Hf Hn Hs. pose proof (count_upd f t (mkThread p Idle) th ths Hn) as H.
+    rewrite (Hf th Hs), (Hf (mkThread p Idle) eq_refl) in H. cbn in H. lia.
+  Qed.
+
+  (* set_prog preserves well-formedness *)
+  Lemma wf_set_prog : forall t p s s', wf s -> set_prog t p s = Some s' -> wf s'.
+  Proof.
+    intros t p s s' W H. destruct (set_prog_spec _ _ _ _ H) as (th & Hn & Hs & ->). constructor; cbn.
+    - apply (wf_holder _ W).
+    - intros t' Ho. destruct (wf_owner _ W _ Ho) as (a & Ha & Hsa). exists a. split; auto.
+      rewrite nth_error_upd_neq; auto. intro; subst. congruence.
+    - intros t' a Ha Hsa. destruct (Nat.eq_dec t t') as [->|Hne].
+      + rewrite (nth_error_upd_eq _ _ _ _ Hn) in Ha. inversion Ha; subst. discriminate.
+      + rewrite nth_error_upd_neq in Ha by auto. eapply wf_incs; eauto.
+    - apply Forall_upd; [apply (wf_busy _ W)|]. intro Hc. cbn in Hc. congruence.
+  Qed.
+
   Theorem wf_reach : forall s0 progs s, reach body (init_sys s0 progs) s -> wf s.
   Proof.
     intros s0 progs. apply reach_inv; [apply wf_init|]. intros; eapply wf_step; eauto.
@@ -366,12 +395,9 @@ Section History.
   Hypothesis R_step : forall t o s s' r sg h,
     R s h -> body o s = Ret s' r sg -> R s' (h ++ [(t, o, r)]).
 
-  Theorem hist_inv : forall s0 progs s, R s0 [] ->
-    reach body (init_sys s0 progs) s -> R (shared s) (hist s).
+  Lemma hist_step : forall s l s', R (shared s) (hist s) -> step body s l = Some s' -> R (shared s') (hist s').
   Proof.
-    intros s0 progs s H0.
-    apply (reach_inv _ _ _ body (fun s => R (shared s) (hist s))); [exact H0|].
-    intros s1 l s2 _ HR H. destruct l as [t|t picks|t|t]; cbn in H.
+    intros s1 l s2 HR H. destruct l as [t|t picks|t|t]; cbn in H.
     - destruct (nth_error (threads s1) t) as [th|]; [|discriminate].
       destruct (owner s1); [discriminate|]. destruct (st th); try discriminate.
       destruct (prog th); [discriminate|]. inversion H; subst; exact HR.
@@ -385,6 +411,14 @@ Section History.
     - destruct (nth_error (threads s1) t) as [th|]; [|discriminate].
       destruct (owner s1); [discriminate|]. destruct (st th); try discriminate.
       inversion H; subst; exact HR.
+  Qed.
+
+  Theorem hist_inv : forall s0 progs s, R s0 [] ->
+    reach body (init_sys s0 progs) s -> R (shared s) (hist s).
+  Proof.
+    intros s0 progs s H0.
+    apply (reach_inv _ _ _ body (fun s => R (shared s) (hist s))); [exact H0|].
+    intros s1 l s2 _ HR H. eapply hist_step; eauto.
   Qed.
 End History.
 
@@ -437,6 +471,12 @@ Section Discipline.
     - destruct (nth_error (threads s) t) as [th|] eqn:Hn; [|discriminate].
       destruct (owner s); [discriminate|]. destruct (st th); try discriminate.
       inversion H; subst; cbn. apply Forall_upd; auto. intros c' Hc'. discriminate.
+  Qed.
+
+  Lemma wok_set_prog : forall t p s s', wok s -> set_prog t p s = Some s' -> wok s'.
+  Proof.
+    unfold wok. intros t p s s' J H. destruct (set_prog_spec _ _ _ _ _ _ _ H) as (th & Hn & Hs & ->). cbn.
+    apply Forall_upd; auto. intros c' Hc'. discriminate.
   Qed.
 
   Lemma wok_init : forall s0 progs, wok (@init_sys S op res s0 progs).
@@ -522,7 +562,7 @@ Section Discipline.
     Hypothesis SI_ret : forall o s s' r sg, SI s -> body o s = Ret s' r sg -> SI s'.
     Hypothesis H_block : forall o s, SI s -> body o s = Block c -> avail s = 0.
     Hypothesis H_ret : forall o s s' r sg, SI s -> body o s = Ret s' r sg ->
-      has_bcast c sg = true \/ avail s' + b2n (blocker c o) <= avail s + nnotify c sg.
+      has_bcast c sg = true \/ avail s' = 0 \/ avail s' + b2n (blocker c o) <= avail s + nnotify c sg.
 
     Definition disc (s : sys) : Prop := nwaiting c s > 0 -> avail (shared s) <= nclients c s.
 
@@ -553,7 +593,7 @@ Section Discipline.
           destruct (apply_signals_clients c sg picks ths1 J1 Hpos) as (Hnb & Hge).
           pose proof (wakes_nwaiting_le c _ _ (apply_signals_wakes sg picks ths1)) as Hle.
           assert (count (is_waiting c) (threads s) > 0) as Hpos0 by lia. specialize (D Hpos0).
-          destruct (H_ret _ _ _ _ _ HSI Hb) as [Hx|Hx]; [congruence|]. lia.
+          destruct (H_ret _ _ _ _ _ HSI Hb) as [Hx|[Hx|Hx]]; [congruence|lia|lia].
         + pose proof (count_upd (is_waiting c) t (mkThread (o :: rest) (Waiting c')) th _ Hn) as HW.
           pose proof (count_upd (wants c) t (mkThread (o :: rest) (Waiting c')) th _ Hn) as HN.
           rewrite E1 in HW. rewrite E2 in HN.
@@ -581,6 +621,15 @@ Section Discipline.
         assert (wants c (mkThread (prog th) InCS) = wants c th) as E2 by (unfold wants; cbn; rewrite Hs; reflexivity).
         rewrite E1 in HW. rewrite E2 in HN. cbn in HW. intro Hpos.
         assert (count (is_waiting c) (threads s) > 0) as Hpos0 by lia. specialize (D Hpos0). lia.
+    Qed.
+
+    Lemma disc_set_prog : forall t p s s', disc s -> set_prog t p s = Some s' -> disc s'.
+    Proof.
+      unfold disc, nwaiting, nclients. intros t p s s' D H.
+      destruct (set_prog_spec _ _ _ _ _ _ _ H) as (th & Hn & Hs & ->). cbn [shared threads].
+      rewrite !(count_upd_idle _ _ _ _ th); auto.
+      - intros a Ha. unfold wants. rewrite Ha. reflexivity.
+      - intros a Ha. unfold is_waiting. rewrite Ha. reflexivity.
     Qed.
 
     Theorem disc_reach : forall s0 progs s, SI s0 -> reach body (init_sys s0 progs) s ->
@@ -672,6 +721,14 @@ Section Discipline.
         rewrite E1 in HW. cbn in HW. intro Hpos. apply D. lia.
     Qed.
 
+    Lemma bdisc_set_prog : forall t p s s', bdisc s -> set_prog t p s = Some s' -> bdisc s'.
+    Proof.
+      unfold bdisc, nwaiting. intros t p s s' D H.
+      destruct (set_prog_spec _ _ _ _ _ _ _ H) as (th & Hn & Hs & ->). cbn [shared threads].
+      rewrite (count_upd_idle _ _ _ _ th); auto.
+      intros a Ha. unfold is_waiting. rewrite Ha. reflexivity.
+    Qed.
+
     Theorem bdisc_reach : forall s0 progs s, reach body (init_sys s0 progs) s -> bdisc s.
     Proof.
       intros s0 progs. apply reach_inv.
@@ -703,3 +760,237 @@ Section Run.
       eapply IH; [|exact H]. eapply reach_step; eauto.
   Qed.
 End Run.
+
+(* ------------------------------------------------------------------ ranking: quiescence is reached *)
+Section Ranking.
+  Variables S op res : Type.
+  Variable body : op -> S -> outcome S res.
+  Notation sys := (sys S op res).
+  Notation plen := (fun th : thread op => length (prog th)).
+
+  Lemma tsum_upd : forall (f : thread op -> nat) n x a ths, nth_error ths n = Some a ->
+    tsum f (upd n x ths) + f a = tsum f ths + f x.
+  Proof.
+    intros f n x a ths; revert n; induction ths as [|h t IH]; intros [|n] H; cbn in H; try discriminate.
+    - inversion H; subst. cbn. lia.
+    - cbn [upd tsum fold_right]. specialize (IH _ H). unfold tsum in IH. lia.
+  Qed.
+
+  Lemma rank_bounds : forall th : thread op, 1 <= rank th <= 3.
+  Proof. intros th. unfold rank. destruct (st th); lia. Qed.
+
+  Lemma tsum_rank_le : forall ths : list (thread op), tsum rank ths <= 3 * length ths.
+  Proof.
+    induction ths as [|h t IH]; cbn [tsum fold_right length]; [lia|].
+    pose proof (rank_bounds h). unfold tsum in IH. lia.
+  Qed.
+
+  Lemma wakes_length : forall l l' : list (thread op), wakes l l' -> length l' = length l.
+  Proof. intros l l' H; induction H; cbn; auto. Qed.
+
+  Lemma wakes_plen : forall l l' : list (thread op), wakes l l' -> tsum plen l' = tsum plen l.
+  Proof.
+    intros l l' H; induction H; auto. cbn [tsum fold_right]. unfold tsum in IHForall2.
+    rewrite (wk_prog _ _ H). lia.
+  Qed.
+
+  Lemma lex_lt : forall K a a' b b', a' < a -> b' < K -> K * a' + b' < K * a + b.
+  Proof. intros K a a' b b' Ha Hb. assert (K * a' + K <= K * a) by nia. lia. Qed.
+
+  Theorem measure_step : forall (s : sys) l s', step body s l = Some s' -> is_spurious l = false ->
+    measure s' < measure s.
+  Proof.
+    intros s l s' H Hl. unfold measure. destruct l as [t|t picks|t|t]; cbn in H; try discriminate Hl.
+    - destruct (nth_error (threads s) t) as [th|] eqn:Hn; [|discriminate].
+      destruct (owner s); [discriminate|]. destruct (st th) eqn:Hs; try discriminate.
+      destruct (prog th) as [|o rest] eqn:Hp; [discriminate|]. inversion H; subst; clear H; cbn [threads].
+      rewrite upd_length.
+      pose proof (tsum_upd plen t (mkThread (o :: rest) InCS) th _ Hn) as HP.
+      pose proof (tsum_upd rank t (mkThread (o :: rest) InCS) th _ Hn) as HR.
+      cbn [prog] in HP. rewrite Hp in HP.
+      assert (R1 : rank th = 3) by (unfold rank; rewrite Hs; reflexivity).
+      assert (R2 : rank (mkThread (o :: rest) InCS) = 2) by reflexivity. rewrite R1, R2 in HR.
+      assert (E : tsum plen (upd t (mkThread (o :: rest) InCS) (threads s)) = tsum plen (threads s)) by lia.
+      rewrite E. lia.
+    - destruct (nth_error (threads s) t) as [th|] eqn:Hn; [|discriminate].
+      destruct (st th) eqn:Hs; try discriminate. destruct (prog th) as [|o rest] eqn:Hp; [discriminate|].
+      destruct (body o (shared s)) as [s1 r sg|c] eqn:Hb; inversion H; subst; clear H; cbn [threads].
+      + set (ths1 := upd t (mkThread rest Idle) (threads s)).
+        pose proof (apply_signals_wakes sg picks ths1) as Hw.
+        rewrite (wakes_length _ _ Hw), (wakes_plen _ _ Hw). unfold ths1. rewrite upd_length.
+        pose proof (tsum_upd plen t (mkThread rest Idle) th _ Hn) as HP.
+        cbn [prog] in HP. rewrite Hp in HP. cbn [length] in HP.
+        pose proof (tsum_rank_le (apply_signals sg picks ths1)) as HR.
+        rewrite (wakes_length _ _ Hw) in HR. unfold ths1 in HR. rewrite upd_length in HR.
+        apply lex_lt; lia.
+      + rewrite upd_length.
+        pose proof (tsum_upd plen t (mkThread (o :: rest) (Waiting c)) th _ Hn) as HP.
+        pose proof (tsum_upd rank t (mkThread (o :: rest) (Waiting c)) th _ Hn) as HR.
+        cbn [prog] in HP. rewrite Hp in HP.
+        assert (R1 : rank th = 2) by (unfold rank; rewrite Hs; reflexivity).
+        assert (R2 : rank (mkThread (o :: rest) (Waiting c)) = 1) by reflexivity. rewrite R1, R2 in HR.
+        assert (E : tsum plen (upd t (mkThread (o :: rest) (Waiting c)) (threads s)) = tsum plen (threads s)) by lia.
+        rewrite E. lia.
+    - destruct (nth_error (threads s) t) as [th|] eqn:Hn; [|discriminate].
+      destruct (owner s); [discriminate|]. destruct (st th) eqn:Hs; try discriminate.
+      inversion H; subst; clear H; cbn [threads]. rewrite upd_length.
+      pose proof (tsum_upd plen t (mkThread (prog th) InCS) th _ Hn) as HP.
+      pose proof (tsum_upd rank t (mkThread (prog th) InCS) th _ Hn) as HR.
+      cbn [prog] in HP.
+      assert (R1 : rank th = 3) by (unfold rank; rewrite Hs; reflexivity).
+      assert (R2 : rank (mkThread (prog th) InCS) = 2) by reflexivity. rewrite R1, R2 in HR.
+      assert (E : tsum plen (upd t (mkThread (prog th) InCS) (threads s)) = tsum plen (threads s)) by lia.
+      rewrite E. lia.
+  Qed.
+
+  Theorem measure_spurious : forall (s : sys) t s', step body s (LSpurious t) = Some s' ->
+    measure s' = measure s + 2.
+  Proof.
+    intros s t s' H. unfold measure. cbn in H.
+    destruct (nth_error (threads s) t) as [th|] eqn:Hn; [|discriminate].
+    destruct (st th) eqn:Hs; try discriminate. inversion H; subst; clear H; cbn [threads]. rewrite upd_length.
+    pose proof (tsum_upd plen t (signalled_of th) th _ Hn) as HP.
+    pose proof (tsum_upd rank t (signalled_of th) th _ Hn) as HR.
+    cbn [prog signalled_of] in HP.
+    assert (R1 : rank th = 1) by (unfold rank; rewrite Hs; reflexivity).
+    assert (R2 : rank (signalled_of th) = 3) by reflexivity. rewrite R1, R2 in HR.
+    assert (E : tsum plen (upd t (signalled_of th) (threads s)) = tsum plen (threads s)) by lia.
+    rewrite E. lia.
+  Qed.
+
+  (* every schedule: the number of steps that are not injected spurious wake-ups is bounded by the
+     measure of the start state plus twice the number of spurious wake-ups *)
+  Theorem run_bound : forall ls (s s' : sys), run body s ls = Some s' ->
+    measure s' + nonspur ls <= measure s + 2 * nspur ls.
+  Proof.
+    induction ls as [|l r IH]; intros s s' H; cbn in H.
+    - inversion H; subst. cbn. lia.
+    - destruct (step body s l) as [s1|] eqn:E; [|discriminate]. specialize (IH _ _ H).
+      unfold nonspur, nspur in *. cbn [filter]. destruct (is_spurious l) eqn:El; cbn [negb length].
+      + destruct l; try discriminate. pose proof (measure_spurious _ _ _ E). lia.
+      + pose proof (measure_step _ _ _ E El). lia.
+  Qed.
+
+  Lemma body_any_picks : forall (s : sys) t picks s', step body s (LBody t picks) = Some s' ->
+    exists s'', step body s (LBody t []) = Some s''.
+  Proof.
+    intros s t picks s' H. cbn in *. destruct (nth_error (threads s) t) as [th|]; [|discriminate].
+    destruct (st th); try discriminate. destruct (prog th) as [|o rest]; [discriminate|].
+    destruct (body o (shared s)); eauto.
+  Qed.
+
+  Lemma step_in_range : forall (s : sys) l s', step body s l = Some s' ->
+    match l with LAcquire t | LBody t _ | LSpurious t | LReacquire t => t < length (threads s) end.
+  Proof.
+    intros s l s' H. destruct l as [t|t picks|t|t]; cbn in H;
+      (destruct (nth_error (threads s) t) eqn:Hn; [apply nth_error_Some; congruence|discriminate]).
+  Qed.
+
+  Lemma some_move_sound : forall (s : sys) l, some_move body s = Some l ->
+    is_spurious l = false /\ exists s', step body s l = Some s'.
+  Proof.
+    intros s l H. unfold some_move in H.
+    destruct (filter (can_move body s) (seq 0 (length (threads s)))) as [|t r] eqn:F; [discriminate|].
+    assert (Hc : can_move body s t = true).
+    { assert (In t (filter (can_move body s) (seq 0 (length (threads s))))) as Hin by (rewrite F; left; reflexivity).
+      apply filter_In in Hin. tauto. }
+    unfold can_move in Hc.
+    destruct (step body s (LAcquire t)) as [s1|] eqn:E1.
+    - inversion H; subst. split; [reflexivity|eauto].
+    - destruct (step body s (LBody t [])) as [s2|] eqn:E2.
+      + inversion H; subst. split; [reflexivity|eauto].
+      + destruct (step body s (LReacquire t)) as [s3|] eqn:E3; [|discriminate].
+        inversion H; subst. split; [reflexivity|eauto].
+  Qed.
+
+  Lemma some_move_none : forall s : sys, some_move body s = None -> quiescent body s.
+  Proof.
+    intros s H l s' Hst. unfold some_move in H.
+    destruct (filter (can_move body s) (seq 0 (length (threads s)))) as [|t0 r] eqn:F.
+    2: { destruct (step body s (LAcquire t0)); [discriminate|]. destruct (step body s (LBody t0 [])); discriminate. }
+    assert (Hall : forall t, t < length (threads s) -> can_move body s t = false).
+    { intros t Ht. destruct (can_move body s t) eqn:Ec; auto. exfalso.
+      assert (In t (filter (can_move body s) (seq 0 (length (threads s))))) as Hin.
+      { apply filter_In. split; auto. apply in_seq. lia. }
+      rewrite F in Hin. destruct Hin. }
+    pose proof (step_in_range _ _ _ Hst) as Hr.
+    destruct l as [t|t picks|t|t]; eauto; exfalso; specialize (Hall _ Hr); unfold can_move in Hall.
+    - rewrite Hst in Hall. discriminate.
+    - destruct (body_any_picks _ _ _ _ Hst) as (s2 & E2). rewrite E2 in Hall.
+      destruct (step body s (LAcquire t)); discriminate.
+    - rewrite Hst in Hall. destruct (step body s (LAcquire t)); [discriminate|].
+      destruct (step body s (LBody t [])); discriminate.
+  Qed.
+
+  (* from every state a quiescent state is reached without any spurious wake-up ... *)
+  Theorem reaches_quiescence : forall s : sys, exists ls s',
+    run body s ls = Some s' /\ nspur ls = 0 /\ quiescent body s'.
+  Proof.
+    intros s. remember (measure s) as n eqn:En. revert s En.
+    induction n as [n IH] using lt_wf_ind. intros s En.
+    destruct (some_move body s) as [l|] eqn:E.
+    - destruct (some_move_sound _ _ E) as (Hl & s1 & Hs1).
+      pose proof (measure_step _ _ _ Hs1 Hl) as Hm.
+      destruct (IH (measure s1) ltac:(lia) s1 eq_refl) as (ls & s' & Hrun & Hsp & Hq).
+      exists (l :: ls), s'. split; [cbn; rewrite Hs1; exact Hrun|]. split; auto.
+      unfold nspur in *. cbn [filter]. rewrite Hl. exact Hsp.
+    - exists [], s. split; [reflexivity|]. split; [reflexivity|]. apply some_move_none; auto.
+  Qed.
+
+  (* ... and EVERY schedule without spurious wake-ups is finite: at most [measure s] steps *)
+  Corollary spurious_free_runs_are_finite : forall ls (s s' : sys),
+    run body s ls = Some s' -> nspur ls = 0 -> length ls <= measure s.
+  Proof.
+    intros ls s s' H Hsp. pose proof (run_bound _ _ _ H) as Hb. rewrite Hsp in Hb.
+    assert (length ls = nonspur ls + nspur ls) as El.
+    { unfold nonspur, nspur. clear. induction ls as [|l r IH]; cbn; auto. destruct (is_spurious l); cbn; lia. }
+    lia.
+  Qed.
+End Ranking.
+
+(* ------------------------------------------------------------------ explicit shape of each step *)
+Section StepInv.
+  Variables S op res : Type.
+  Variable body : op -> S -> outcome S res.
+  Notation sys := (sys S op res).
+
+  Lemma step_acquire_inv : forall (s s' : sys) t, step body s (LAcquire t) = Some s' ->
+    exists th o rest, nth_error (threads s) t = Some th /\ st th = Idle /\ prog th = o :: rest /\ owner s = None /\
+      s' = mkSys (shared s) (Some t) (Some t) (upd t (mkThread (o :: rest) InCS) (threads s)) (hist s).
+  Proof.
+    intros s s' t H. cbn in H. destruct (nth_error (threads s) t) as [th|] eqn:Hn; [|discriminate].
+    destruct (owner s) eqn:Ho; [discriminate|]. destruct (st th) eqn:Hs; try discriminate.
+    destruct (prog th) as [|o rest] eqn:Hp; [discriminate|]. inversion H; subst.
+    exists th, o, rest. rewrite Hp. auto 10.
+  Qed.
+
+  Lemma step_body_inv : forall (s s' : sys) t picks, step body s (LBody t picks) = Some s' ->
+    exists th o rest, nth_error (threads s) t = Some th /\ st th = InCS /\ prog th = o :: rest /\
+      ((exists s1 r sg, body o (shared s) = Ret s1 r sg /\
+          s' = mkSys s1 None None (apply_signals sg picks (upd t (mkThread rest Idle) (threads s))) (hist s ++ [(t, o, r)])) \/
+       (exists c, body o (shared s) = Block c /\
+          s' = mkSys (shared s) None None (upd t (mkThread (o :: rest) (Waiting c)) (threads s)) (hist s))).
+  Proof.
+    intros s s' t picks H. cbn in H. destruct (nth_error (threads s) t) as [th|] eqn:Hn; [|discriminate].
+    destruct (st th) eqn:Hs; try discriminate. destruct (prog th) as [|o rest] eqn:Hp; [discriminate|].
+    exists th, o, rest. repeat split; auto.
+    destruct (body o (shared s)) as [s1 r sg|c] eqn:Hb; inversion H; subst; [left|right]; eauto 10.
+  Qed.
+
+  Lemma step_spurious_inv : forall (s s' : sys) t, step body s (LSpurious t) = Some s' ->
+    exists th c, nth_error (threads s) t = Some th /\ st th = Waiting c /\
+      s' = mkSys (shared s) (owner s) (holder s) (upd t (signalled_of th) (threads s)) (hist s).
+  Proof.
+    intros s s' t H. cbn in H. destruct (nth_error (threads s) t) as [th|] eqn:Hn; [|discriminate].
+    destruct (st th) eqn:Hs; try discriminate. inversion H; subst. eauto 10.
+  Qed.
+
+  Lemma step_reacquire_inv : forall (s s' : sys) t, step body s (LReacquire t) = Some s' ->
+    exists th, nth_error (threads s) t = Some th /\ st th = Signalled /\ owner s = None /\
+      s' = mkSys (shared s) (Some t) (Some t) (upd t (mkThread (prog th) InCS) (threads s)) (hist s).
+  Proof.
+    intros s s' t H. cbn in H. destruct (nth_error (threads s) t) as [th|] eqn:Hn; [|discriminate].
+    destruct (owner s) eqn:Ho; [discriminate|]. destruct (st th) eqn:Hs; try discriminate.
+    inversion H; subst. eauto 10.
+  Qed.
+End StepInv.
